@@ -32,6 +32,14 @@ class CheckError(Exception):
     pass
 
 
+class HarnessAborted(CheckError):
+    """The harness process died by a signal inside the implementation."""
+    def __init__(self, rc, args, done, tail):
+        self.rc, self.hargs, self.done, self.tail = rc, args, done, tail
+        CheckError.__init__(self, "the implementation aborted the harness process (exit %s) while handling generated "
+                            "case number %d of: harness %s\n%s" % (rc, done + 1, " ".join(args), tail))
+
+
 def sh(cmd, cwd=None, timeout=3600, env=None, check=True, capture=True):
     t0 = time.time()
     p = subprocess.run(cmd, cwd=cwd, env=env or ENV, shell=isinstance(cmd, str),
@@ -186,6 +194,16 @@ def run_harness(args, out_path, timeout=3000, release=False, env_extra=None):
     if env_extra:
         env.update(env_extra)
     rc, out, dt = sh([harness_exe(release)] + args + ["--out", out_path], timeout=timeout, check=False, env=env)
+    if rc < 0 or rc in (134, 137, 139):
+        # the process was killed by a signal (abort on an absurd allocation, stack overflow,
+        # ...) while the implementation handled a generated case: every case line is flushed
+        # as soon as it is complete, so the file holds the cases before the fatal one
+        done = 0
+        try:
+            done = sum(1 for l in open(out_path) if l and not l.startswith("#"))
+        except OSError:
+            pass
+        raise HarnessAborted(rc, args, done, out[-1500:])
     if rc != 0:
         raise CheckError("harness failed (%s): %s\n%s" % (rc, " ".join(args), out[-3000:]))
     return dt
